@@ -170,3 +170,14 @@ def _(self: Obj(IeeKeyBlob), attributes: IEE_ATTR, start_addr: U32, end_addr: U3
                              "attributes": IeeKeyBlobAttribute(IeeKeyBlobLockAttributes.UNLOCK, rnd.choice(list(IeeKeyBlobKeyAttributes)), rnd.choice(list(IeeKeyBlobModeAttributes))),
                              "start_addr": 0x30000000, "end_addr": 0x30001000, "key1": rnd.choice([None, bytes(16), bytes(32)]), "key2": rnd.choice([None, bytes(16)]),
                              "page_offset": 0, "crc": None})
+
+
+# ---- MBI counter IV: loading a configuration that gives no IV draws a new one, whatever the object held before --------------------
+@contract("spsdk.image.mbi.mbi_mixin:Mbi_MixinCtrInitVector.mix_load_from_config")
+def _(self: Obj(Mbi_MixinCtrInitVector, _ctr_init_vector=Optional[Bytes(16)], _CTR_INIT_VECTOR_SIZE=Const(16), search_paths=Const(None)),
+      config: DictOf(CtrInitVector=OneOf(None, "0x000102030405060708090a0b0c0d0e0f"))):
+    ensures(implies(config["CtrInitVector"] is None, fresh_in_call(self._ctr_init_vector) and len(self._ctr_init_vector) == 16),
+            label="no-iv-in-the-configuration-means-a-new-one-for-this-image")
+    modifies(self._ctr_init_vector)
+    sample_with(lambda rnd: {"self": _mk(Mbi_MixinCtrInitVector, _ctr_init_vector=rnd.choice([None, bytes(16)]), search_paths=None),
+                             "config": {"CtrInitVector": rnd.choice([None, "0x000102030405060708090a0b0c0d0e0f"])}})
